@@ -92,11 +92,12 @@ class VTimer(object):
 
 class FakeWatcher(object):
   """What a blocked fake-socket operation waits on (via the real hub.wait)."""
-  __slots__ = ('loop', 'cb')
+  __slots__ = ('loop', 'cb', 'kind')
 
   def __init__(self, loop):
     self.loop = loop
     self.cb = None
+    self.kind = ''
 
   def start(self, callback, *args, **kw):
     self.cb = (callback, args)
